@@ -168,7 +168,7 @@ def pk_conservation(F):
 
 def pk(props=("C16", "C03"), recipe=(1, 1), n_pallets=2, blocking=True, split_out=1, split_sel="FIRST_AVAILABLE", sym=("ip", "ii", "pd"), comb_cap=2,
        until=None, twin=False, split_blocking=None, item_cap=2, mid_cap=1, out_cap=1, out_delay=0, comb_only=False, split_pd="sym", setup=0,
-       mid_mode="FIFO", split_sd_hi=3, split_in_sel="FIRST_AVAILABLE", item_delay=0, item_mode="FIFO", src_sel=0, no_combiner=False, split_quantity=None, out_kind="buffer", mid_kind="buffer", conv_kw=None, comb_out_sel="FIRST_AVAILABLE", recipe2=None):
+       mid_mode="FIFO", split_sd_hi=3, split_in_sel="FIRST_AVAILABLE", item_delay=0, item_mode="FIFO", src_sel=0, no_combiner=False, split_quantity=None, out_kind="buffer", mid_kind="buffer", conv_kw=None, comb_out_sel="FIRST_AVAILABLE", recipe2=None, second_feed=False):
     """pallet source + item source(s) -> Combiner(recipe) -> MID -> Splitter -> OUT_j -> sinks"""
     def fn(ctx):
         from factorysimpy.nodes.source import Source
@@ -231,11 +231,17 @@ def pk(props=("C16", "C03"), recipe=(1, 1), n_pallets=2, blocking=True, split_ou
         else:
             spl = F.add_node(Splitter(env, "SPL", split_quantity=split_quantity, processing_delay=F.delay_source("SPL", [sd] * (n_pallets + 1), "callable", after=1),
                                       blocking=blocking if split_blocking is None else split_blocking,
-                                      in_edge_selection=split_in_sel,
+                                      in_edge_selection=(_policy(F, ctx, "SPL", "in", split_in_sel, 2, 2 * n_pallets) if second_feed else split_in_sel),
                                       out_edge_selection=_policy(F, ctx, "SPL", "out", split_sel, split_out, 0), node_setup_time=setup))
             F.unit_delay["SPL"] = sd
             em = _edge(F, mid_kind, "MID", mid_cap, 0, **(dict(conv_kw or {}, mode=mid_mode) if mid_kind == "buffer" else (conv_kw or {})))
             em.connect(sp if no_combiner else comb, spl)
+            if second_feed:
+                # a second pallet source feeding the splitter directly: the splitter has two in-edges and has to choose between them
+                ip2 = ctx.real("ip2", 0.5, 3) if "ip" in sym else 1
+                sp2 = F.add_node(Source(env, "SP2", flow_item_type="pallet", inter_arrival_time=F.delay_source("SP2", [ip2] * n_pallets, "generator"), blocking=True, out_edge_selection=src_sel))
+                em2 = _edge(F, "buffer", "MID2", mid_cap, 0)
+                em2.connect(sp2, spl)
             for j in range(split_out):
                 k = F.add_node(Sink(env, f"K{j}"))
                 sinks.append(k)
